@@ -23,6 +23,7 @@ private helper.  `WT.run(f)` evaluates the statements of `f` into **terms** over
 Expected terms are built by evaluating *specification text* with the same evaluator (`WT.expr`), so a rule reads
 "the kernel's ew_res argument is `(xc[-1] - xc[0]) / (raster.shape[1] - 1)`" and is compared by term equality."""
 import ast
+import copy
 
 from .program import Ext, Func, Partial, norm
 from .sym import Rat, Sym
@@ -265,6 +266,12 @@ class WT:
         idx = self.ev(f, e.slice, env, depth)
         if base[0] == 'tuple' and idx[0] == 'const' and isinstance(idx[1], int) and -len(base[1]) <= idx[1] < len(base[1]):
             return base[1][idx[1]]
+        if base[0] == 'phi' and idx[0] == 'const' and isinstance(idx[1], int) and idx[1] >= 0 and base[2][0] in ('tuple', 'phi') and base[3][0] in ('tuple', 'phi'):
+            def _len(t_):
+                return len(t_[1]) if t_[0] == 'tuple' else (_len(t_[2]) if t_[0] == 'phi' and _len(t_[2]) == _len(t_[3]) else None)
+            n_ = _len(base)
+            if n_ is not None and idx[1] < n_:
+                return _component(base, idx[1], n_)
         if idx[0] == 'const' and idx[1] in ('x', 'y') and (base[0] in ('param',) or (base[0] == 'attr' and base[2] in ('coords', 'indexes'))):
             return ('coord', base[1] if base[0] == 'attr' else base, idx[1])
         if base[0] == 'tuple' and idx[0] == 'slice' and all(x is None or (x[0] == 'const' and isinstance(x[1], int)) for x in idx[1:]):
@@ -318,6 +325,23 @@ class WT:
         if isinstance(fn, ast.Name) and fn.id in ('tuple', 'list') and fn.id not in env and len(args) == 1 and args[0][0] == 'tuple':
             return args[0]
         target = None
+        if isinstance(fn, ast.Name) and isinstance(env.get(fn.id), tuple) and env[fn.id] and env[fn.id][0] == 'phi' and f is not None:
+            # a callable chosen by a selector (`kernel = _select(dtype); kernel(x)`): the call is made on either branch
+            def fref(t_):
+                return isinstance(t_, tuple) and len(t_) == 2 and t_[0] == 'global' and isinstance(f.module.funcs.get(t_[1]), Func)
+            ph = env[fn.id]
+            if fref(ph[2]) and fref(ph[3]):
+                outs = []
+                saved_ = self.guards
+                for br, g_ in ((ph[2], ph[1]), (ph[3], neg(ph[1]))):
+                    e2 = copy.copy(e)
+                    e2.func = ast.copy_location(ast.Name(id=br[1], ctx=ast.Load()), fn)
+                    env2 = dict(env)
+                    env2.pop(br[1], None)
+                    self.guards = saved_ + [g_]
+                    outs.append(self.e_Call(f, e2, env2, depth))
+                self.guards = saved_
+                return outs[0] if outs[0] == outs[1] else ('phi', ph[1], outs[0], outs[1])
         if isinstance(fn, ast.Name) and isinstance(env.get(fn.id), tuple) and env[fn.id][0] == 'localfunc' and depth < self.maxdepth:
             # a nested function: evaluated in the environment it closes over
             lf = env[fn.id][2]
@@ -520,12 +544,26 @@ class WT:
                 if v[0] == 'tuple' and len(v[1]) == len(t.elts):
                     self.assign(f, x, v[1][i], env, depth, node)
                 else:
-                    self.assign(f, x, ('index', v, ('const', i)), env, depth, node)
+                    self.assign(f, x, _component(v, i, len(t.elts)), env, depth, node)
         elif isinstance(t, (ast.Attribute, ast.Subscript)):
             self.stores.append((self.ev(f, t, env, depth), v, list(self.guards), node))
             # `x.values = x.values.astype(..)`: later reads of x.values see the new value
             if isinstance(t, ast.Attribute) and isinstance(t.value, ast.Name):
                 env['%s.%s' % (t.value.id, t.attr)] = v
+
+
+def _component(v, i, n):
+    """component i of an n-tuple valued term: through conditional values (`phi(c, (a, b), (a2, b2))[0]` = `phi(c, a, a2)`)"""
+    if v is None:
+        return None
+    if v[0] == 'tuple' and len(v[1]) == n:
+        return v[1][i]
+    if v[0] == 'phi':
+        a, b = _component(v[2], i, n), _component(v[3], i, n)
+        if a is None or b is None:
+            return a if b is None else b        # the other branch does not return (it raises)
+        return a if a == b else ('phi', v[1], a, b)
+    return ('index', v, ('const', i))
 
 
 def _attr_default(k_, env):
